@@ -45,7 +45,8 @@ Theorem C20_rq_matrix_shape :
     length (rq_matrix O var alpha ls xs ys) = length xs /\
     forall i, (i < length xs)%nat -> length (nth i (rq_matrix O var alpha ls xs ys) []) = length ys.
 Proof. exact @rq_matrix_shape. Qed.
-(** ... and equals the scalar form entry by entry *)
+(** ... and equals the scalar form entry by entry (the net matrix of the repaired code IS the matrix of the scalar form;
+    the same on every carrier: C20_matrix_is_scalar_any_carrier below) *)
 Theorem C20_rbf_matrix_is_scalar :
   forall (var ls : R) (xs ys : list R) (i j : nat), (i < length xs)%nat -> (j < length ys)%nat ->
     ent 0 (rbf_matrix RO var ls xs ys) i j = rbf RO var ls (nth i xs 0) (nth j ys 0).
@@ -54,6 +55,12 @@ Theorem C20_rq_matrix_is_scalar :
   forall (var alpha ls : R) (xs ys : list R) (i j : nat), (i < length xs)%nat -> (j < length ys)%nat ->
     ent 0 (rq_matrix RO var alpha ls xs ys) i j = rq RO var alpha ls (nth i xs 0) (nth j ys 0).
 Proof. exact rq_matrix_is_scalar. Qed.
+
+Theorem C20_matrix_is_scalar_any_carrier :
+  forall (T : Type) (O : Ops T) (var alpha ls : T) (xs ys : list T) (i j : nat) (d : T), (i < length xs)%nat -> (j < length ys)%nat ->
+    ent d (rbf_matrix O var ls xs ys) i j = rbf O var ls (nth i xs d) (nth j ys d) /\
+    ent d (rq_matrix O var alpha ls xs ys) i j = rq O var alpha ls (nth i xs d) (nth j ys d).
+Proof. exact @matrix_is_scalar_any_carrier. Qed.
 
 Theorem C20_rbf_gram_symmetric :
   forall (var ls : R) (xs : list R) (i j : nat), (i < length xs)%nat -> (j < length xs)%nat ->
@@ -114,28 +121,68 @@ Theorem C20_model_is_source_RationalQuadraticKernel_new :
   forall (T : Type) (O : Ops T) (var alpha ls : T),
     RationalQuadraticKernel_new O var alpha ls = rq_new O var alpha ls.
 Proof. exact @tiea_RationalQuadraticKernel_new. Qed.
+(** matrix form: the translator refuses the file unless the body of the matrix-form [forward] of both kernels is
+    [let (x, y) = (x.reshape(R1, C1), y.reshape(R2, C2)); assert!(x.size() > 0 && y.size() > 0, ..);] followed, token for
+    token, by the body of the scalar [forward] (the terms tied above); the reshape requests it reads out are the ones the
+    model makes, on all four argument types *)
+From Compute Require Import Model.Shape Model.KernelsPlumbing.
+Theorem C20_model_is_source_matrix_form_prologue :
+  forall (T : Type) (a : karg T),
+    to_column a =
+      match a with
+      | KVector v | KRefVector v => Shape.new v (fst kernels_matrix_form_x_reshape) (snd kernels_matrix_form_x_reshape)
+      | KMatrix m | KRefMatrix m => Shape.reshape m (fst kernels_matrix_form_x_reshape) (snd kernels_matrix_form_x_reshape)
+      end /\
+    to_row a =
+      match a with
+      | KVector v | KRefVector v => Shape.new v (fst kernels_matrix_form_y_reshape) (snd kernels_matrix_form_y_reshape)
+      | KMatrix m | KRefMatrix m => Shape.reshape m (fst kernels_matrix_form_y_reshape) (snd kernels_matrix_form_y_reshape)
+      end /\
+    kernels_matrix_form_asserts_nonempty = true /\ kernels_matrix_form_rest_is_scalar_body = true.
+Proof. exact @tiea_matrix_form_prologue. Qed.
 
-(** ** The matrix form IS the plumbing: composition of the verified component models (extension).
+(** ** The matrix form IS the plumbing, and the plumbing IS the scalar form entry by entry (extension).
+    REPAIRED CODE (fix "matrix-form kernels take the difference of the points before squaring it"):
+      let (x, y) = (x.reshape(-1, 1), y.reshape(1, -1));  assert!(x.size() > 0 && y.size() > 0);
+      (-(x - y).powi(2) / (2. * l.powi(2))).exp() * var      |      (1. + (x - y).powi(2) / (2. * alpha * l.powi(2))).powf(-alpha) * var
     [Model/KernelsPlumbing.v] writes the matrix-form [forward] of both kernels, on the four argument types (Vector, &Vector,
     Matrix, &Matrix), as the composition — in the order the Rust code calls them — of the model functions of the
-    properties that own them: [reshape] / [Vector::reshape] (C15, Model/Shape.v), element-wise [powi], negation, [exp],
-    [powf] and the four scalar-matrix operators through the regenerated impl table (C04, Model/Vops.v),
-    [Matrix + Matrix] / [Matrix - Matrix] = [broadcast] (C04 / C12, Model/Broadcast.v) and [dot_t] (C05, Model/MatMul.v).
+    properties that own them: [reshape] / [Vector::reshape] / [size] (C15, Model/Shape.v), [Matrix - Matrix] = [broadcast] of a
+    column against a row (C04 / C12, Model/Broadcast.v), element-wise [powi], negation, [exp], [powf] and the three
+    scalar-matrix operators through the regenerated impl table (C04, Model/Vops.v).
     [points a] is the point set an argument stands for: the entries of a non-empty Vector, the row-major data of a Matrix
-    satisfying the struct invariant (ANY shape: [reshape(-1, 1)] flattens it); [None] otherwise.
+    satisfying the struct invariant (ANY shape: the reshapes flatten it); [None] otherwise.
     The theorems say, for every carrier (no algebraic law), all point sets and all argument types, that the composition
-    returns exactly the |xs| x |ys| matrix of the net entry formula and panics exactly when a point set is missing. *)
+    returns exactly the |xs| x |ys| matrix whose entries are the SCALAR form's operations, in the scalar form's order, on
+    the square of x_i - y_j, and panics exactly when a point set is missing.
+
+    STATEMENTS REPLACED BY THE REPAIR (they were about the expanded square x^2 + y^2 - 2xy, code that no longer exists;
+    kept here, renamed, for the record — the new statements follow):
+      C20_matrix_form_is_plumbing_rbf_any_carrier_before_fix / ..._rq_any_carrier_before_fix :
+        forall T O var [alpha] ls ax ay, rbf_forward_plumbing O var ls ax ay =
+          match points ax, points ay with
+          | Some xs, Some ys => Some (mkmat (length xs) (length ys) (table_sq O (rbf_entry_sq O var ls) xs ys)) | _, _ => None end
+        ([table_sq F xs ys]: entry (i,j) = F (i-th of vpowi xs 2) (j-th of vpowi ys 2) x_i y_j;
+         [rbf_entry_sq var ls x2 y2 x y] = exp (-((x2 + y2) - 2 * (0 + x * y)) / (2 * ls^2)) * var)
+      C20_matrix_form_is_plumbing_rbf_entry_before_fix / ..._rq_entry_before_fix :
+        under (forall x, mul O x x = powi O x 2): ... nth (i * nc r + j) (dat r) d = rbf_entry O var ls (nth i xs d) (nth j ys d)
+        ([rbf_entry] = the scalar form with (x - y).powi(2) replaced by sqdist_expanded x y = (x.powi(2) + y.powi(2)) - 2 * (0 + x * y)).
+      C20_matrix_form_is_plumbing_{rbf,rq}, ..._R, ..._binary64 keep their TEXT, but [rbf_matrix] / [rq_matrix] of Model/Kernels.v
+      were the matrices of [rbf_entry] / [rq_entry] and are now the matrices of the scalar forms [rbf] / [rq]: the statements
+      are strictly stronger than before (bitwise equality with the scalar form instead of equality up to the cancellation).
+    Why it was replaced: on binary64 the expanded square cancels; C20_original_expanded_square_negative (end of this file) is the witness. *)
 From Compute Require Import Model.Shape Model.Broadcast Model.Vops Model.KernelsPlumbing Proofs.C20_plumbing.
 Local Close Scope R_scope.
 Local Open Scope nat_scope.
 
-(** closed form on EVERY carrier, no hypothesis at all: the squares come from the element-wise [powi] kernel
-    ([table_sq]: entry (i,j) = the entry formula with x² := the i-th element of [vpowi xs 2], y² := the j-th of [vpowi ys 2]) *)
+(** closed form on EVERY carrier, no hypothesis at all: [sq_table xs ys] is the row-major table of the differences
+    x_i - y_j squared by the element-wise [powi] kernel of C04; [rbf_of_sq var ls s] / [rq_of_sq var alpha ls s] are the
+    scalar forms' operations after the square ([rbf O var ls x y = rbf_of_sq O var ls (powi O (sub O x y) 2)] by definition) *)
 Theorem C20_matrix_form_is_plumbing_rbf_any_carrier :
   forall (T : Type) (O : Ops T) (var ls : T) (ax ay : karg T),
     rbf_forward_plumbing O var ls ax ay =
     match points ax, points ay with
-    | Some xs, Some ys => Some (mkmat (length xs) (length ys) (table_sq O (rbf_entry_sq O var ls) xs ys))
+    | Some xs, Some ys => Some (mkmat (length xs) (length ys) (map (rbf_of_sq O var ls) (sq_table O xs ys)))
     | _, _ => None
     end.
 Proof. exact @rbf_plumbing_any_carrier. Qed.
@@ -143,13 +190,46 @@ Theorem C20_matrix_form_is_plumbing_rq_any_carrier :
   forall (T : Type) (O : Ops T) (var alpha ls : T) (ax ay : karg T),
     rq_forward_plumbing O var alpha ls ax ay =
     match points ax, points ay with
-    | Some xs, Some ys => Some (mkmat (length xs) (length ys) (table_sq O (rq_entry_sq O var alpha ls) xs ys))
+    | Some xs, Some ys => Some (mkmat (length xs) (length ys) (map (rq_of_sq O var alpha ls) (sq_table O xs ys)))
     | _, _ => None
     end.
 Proof. exact @rq_plumbing_any_carrier. Qed.
+Theorem C20_scalar_form_is_of_sq :
+  forall (T : Type) (O : Ops T) (var alpha ls x y : T),
+    rbf O var ls x y = rbf_of_sq O var ls (powi O (sub O x y) 2) /\
+    rq O var alpha ls x y = rq_of_sq O var alpha ls (powi O (sub O x y) 2).
+Proof. exact @scalar_form_is_of_sq. Qed.
 
-(** ... which is the matrix of [rbf_entry] / [rq_entry] on every carrier where the kernel's [x * x] is the scalar code's
-    [x.powi(2)] (the only fact about the carrier that is used; it holds on the reals and bit for bit on binary64, below) *)
+(** entry (i, j) on EVERY carrier, no hypothesis — what exactly is equal operation for operation and what is not: the
+    entry is the scalar form's own chain of operations (negate, divide by 2 l^2, exp, times var / divide by 2 alpha l^2, 1 +,
+    powf(-alpha), times var) applied to the square of d = x_i - y_j, where the square is [d.powi(2)] — the scalar code's own —
+    in the remainder loop of the [powi] kernel and [d * d] in its 8-wide unrolled part (flat positions below
+    n*m - (n*m) mod 8); [d.powi(2)] is [1 * (d * d)] by square-and-multiply, so the two differ by one multiplication by one *)
+Theorem C20_matrix_form_entry_any_carrier_rbf :
+  forall (T : Type) (O : Ops T) (var ls : T) (ax ay : karg T) (xs ys : list T) (i j : nat) (d : T),
+    points ax = Some xs -> points ay = Some ys -> i < length xs -> j < length ys ->
+    exists r, rbf_forward_plumbing O var ls ax ay = Some r /\
+              Broadcast.nr r = length xs /\ Broadcast.nc r = length ys /\
+              length (Broadcast.dat r) = length xs * length ys /\
+              nth (i * Broadcast.nc r + j) (Broadcast.dat r) d =
+              rbf_of_sq O var ls (let e := sub O (nth i xs d) (nth j ys d) in
+                                  if i * length ys + j <? length xs * length ys - (length xs * length ys) mod 8
+                                  then mul O e e else powi O e 2).
+Proof. exact @rbf_plumbing_entry_any_carrier. Qed.
+Theorem C20_matrix_form_entry_any_carrier_rq :
+  forall (T : Type) (O : Ops T) (var alpha ls : T) (ax ay : karg T) (xs ys : list T) (i j : nat) (d : T),
+    points ax = Some xs -> points ay = Some ys -> i < length xs -> j < length ys ->
+    exists r, rq_forward_plumbing O var alpha ls ax ay = Some r /\
+              Broadcast.nr r = length xs /\ Broadcast.nc r = length ys /\
+              length (Broadcast.dat r) = length xs * length ys /\
+              nth (i * Broadcast.nc r + j) (Broadcast.dat r) d =
+              rq_of_sq O var alpha ls (let e := sub O (nth i xs d) (nth j ys d) in
+                                       if i * length ys + j <? length xs * length ys - (length xs * length ys) mod 8
+                                       then mul O e e else powi O e 2).
+Proof. exact @rq_plumbing_entry_any_carrier. Qed.
+
+(** ... which is the matrix of the SCALAR forms [rbf] / [rq] on every carrier where the kernel's [d * d] is the scalar code's
+    [d.powi(2)] (the only fact about the carrier that is used; it holds on the reals and bit for bit on binary64, below) *)
 Theorem C20_matrix_form_is_plumbing_rbf :
   forall (T : Type) (O : Ops T), (forall x : T, mul O x x = powi O x 2) ->
   forall (var ls : T) (ax ay : karg T),
@@ -169,7 +249,49 @@ Theorem C20_matrix_form_is_plumbing_rq :
     end.
 Proof. exact @rq_plumbing_net. Qed.
 
-(** shape and entry (i,j) of the result, in the flat row-major data the Rust struct holds *)
+(** shape and entry (i,j) of the result, in the flat row-major data the Rust struct holds: THE MATRIX FORM EQUALS THE SCALAR
+    FORM ENTRY BY ENTRY — all sizes, all four argument kinds, both kernels (this replaces "up to the cancellation allowance") *)
+Theorem C20_matrix_form_entry_is_scalar_form :
+  forall (T : Type) (O : Ops T), (forall x : T, mul O x x = powi O x 2) ->
+  forall (var alpha ls : T) (ax ay : karg T) (xs ys : list T) (i j : nat) (d : T),
+    points ax = Some xs -> points ay = Some ys -> i < length xs -> j < length ys ->
+    (exists r, rbf_forward_plumbing O var ls ax ay = Some r /\
+               Broadcast.nr r = length xs /\ Broadcast.nc r = length ys /\
+               length (Broadcast.dat r) = length xs * length ys /\
+               nth (i * Broadcast.nc r + j) (Broadcast.dat r) d = rbf O var ls (nth i xs d) (nth j ys d)) /\
+    (exists r, rq_forward_plumbing O var alpha ls ax ay = Some r /\
+               Broadcast.nr r = length xs /\ Broadcast.nc r = length ys /\
+               length (Broadcast.dat r) = length xs * length ys /\
+               nth (i * Broadcast.nc r + j) (Broadcast.dat r) d = rq O var alpha ls (nth i xs d) (nth j ys d)).
+Proof. exact @matrix_form_entry_is_scalar_form. Qed.
+(** bit for bit on binary64, for EVERY recorded libm table (the matrix form asks libm for exactly the arguments the scalar
+    form asks for), and on the reals: no hypothesis *)
+Theorem C20_matrix_form_entry_is_scalar_form_binary64 :
+  forall (tbl : libm_table) (var alpha ls : PrimFloat.float) (ax ay : karg PrimFloat.float)
+         (xs ys : list PrimFloat.float) (i j : nat) (d : PrimFloat.float),
+    points ax = Some xs -> points ay = Some ys -> i < length xs -> j < length ys ->
+    (exists r, rbf_forward_plumbing (FO tbl) var ls ax ay = Some r /\
+               Broadcast.nr r = length xs /\ Broadcast.nc r = length ys /\
+               length (Broadcast.dat r) = length xs * length ys /\
+               nth (i * Broadcast.nc r + j) (Broadcast.dat r) d = rbf (FO tbl) var ls (nth i xs d) (nth j ys d)) /\
+    (exists r, rq_forward_plumbing (FO tbl) var alpha ls ax ay = Some r /\
+               Broadcast.nr r = length xs /\ Broadcast.nc r = length ys /\
+               length (Broadcast.dat r) = length xs * length ys /\
+               nth (i * Broadcast.nc r + j) (Broadcast.dat r) d = rq (FO tbl) var alpha ls (nth i xs d) (nth j ys d)).
+Proof. exact matrix_form_entry_is_scalar_form_binary64. Qed.
+Theorem C20_matrix_form_entry_is_scalar_form_R :
+  forall (var alpha ls : R) (ax ay : karg R) (xs ys : list R) (i j : nat) (d : R),
+    points ax = Some xs -> points ay = Some ys -> i < length xs -> j < length ys ->
+    (exists r, rbf_forward_plumbing RO var ls ax ay = Some r /\
+               Broadcast.nr r = length xs /\ Broadcast.nc r = length ys /\
+               length (Broadcast.dat r) = length xs * length ys /\
+               nth (i * Broadcast.nc r + j) (Broadcast.dat r) d = rbf RO var ls (nth i xs d) (nth j ys d)) /\
+    (exists r, rq_forward_plumbing RO var alpha ls ax ay = Some r /\
+               Broadcast.nr r = length xs /\ Broadcast.nc r = length ys /\
+               length (Broadcast.dat r) = length xs * length ys /\
+               nth (i * Broadcast.nc r + j) (Broadcast.dat r) d = rq RO var alpha ls (nth i xs d) (nth j ys d)).
+Proof. exact matrix_form_entry_is_scalar_form_R. Qed.
+(** the two per-kernel statements, under their pinned names (entry formula now the scalar form; see the note above) *)
 Theorem C20_matrix_form_is_plumbing_rbf_entry :
   forall (T : Type) (O : Ops T), (forall x : T, mul O x x = powi O x 2) ->
   forall (var ls : T) (ax ay : karg T) (xs ys : list T) (i j : nat) (d : T),
@@ -177,7 +299,7 @@ Theorem C20_matrix_form_is_plumbing_rbf_entry :
     exists r, rbf_forward_plumbing O var ls ax ay = Some r /\
               Broadcast.nr r = length xs /\ Broadcast.nc r = length ys /\
               length (Broadcast.dat r) = length xs * length ys /\
-              nth (i * Broadcast.nc r + j) (Broadcast.dat r) d = rbf_entry O var ls (nth i xs d) (nth j ys d).
+              nth (i * Broadcast.nc r + j) (Broadcast.dat r) d = rbf O var ls (nth i xs d) (nth j ys d).
 Proof. exact @rbf_plumbing_entry. Qed.
 Theorem C20_matrix_form_is_plumbing_rq_entry :
   forall (T : Type) (O : Ops T), (forall x : T, mul O x x = powi O x 2) ->
@@ -186,7 +308,7 @@ Theorem C20_matrix_form_is_plumbing_rq_entry :
     exists r, rq_forward_plumbing O var alpha ls ax ay = Some r /\
               Broadcast.nr r = length xs /\ Broadcast.nc r = length ys /\
               length (Broadcast.dat r) = length xs * length ys /\
-              nth (i * Broadcast.nc r + j) (Broadcast.dat r) d = rq_entry O var alpha ls (nth i xs d) (nth j ys d).
+              nth (i * Broadcast.nc r + j) (Broadcast.dat r) d = rq O var alpha ls (nth i xs d) (nth j ys d).
 Proof. exact @rq_plumbing_entry. Qed.
 
 (** the two carriers of the development, without hypothesis: reals (the object of the theorems above) and binary64 with
@@ -233,8 +355,9 @@ Theorem C20_matrix_form_is_plumbing_rq_accepts_iff :
   forall (T : Type) (O : Ops T) (var alpha ls : T) (ax ay : karg T),
     (exists r, rq_forward_plumbing O var alpha ls ax ay = Some r) <-> (points ax <> None /\ points ay <> None).
 Proof. exact @rq_plumbing_accepts_iff. Qed.
-(** ... and an argument has no point set exactly when it is an empty Vector, or a Matrix violating the struct invariant /
-    without entries (neither can be built through the crate's constructors).  A row-shaped (or any r x c) Matrix IS accepted:
+(** ... and an argument has no point set exactly when it is an empty Vector (refused by the repaired code's own assertion on
+    the sizes; the original refused it inside [powi]), or a Matrix violating the struct invariant / without entries
+    ([Matrix::empty()]: refused by the reshape).  A row-shaped (or any r x c) Matrix IS accepted:
     it is flattened to r*c points, so two Matrix arguments of unequal counts are fine. *)
 Theorem C20_matrix_form_is_plumbing_rejected_arguments :
   forall (T : Type) (a : karg T),
@@ -268,3 +391,13 @@ Proof.
   - rewrite rbf_plumbing_R. eexists; split; [reflexivity|split; reflexivity].
   - split; [reflexivity|]. split; [reflexivity|]. split; [rewrite rbf_plumbing_R; reflexivity|exact sq_is_powi_R].
 Qed.
+
+From Coq Require Import Floats.
+(** the defect the repair removes, on binary64 (no libm involved): for the two points 999 and 999.000001 (inside the stated
+    range +-1e3) the ORIGINAL squared distance x^2 + y^2 - 2 (0 + x y) is NEGATIVE (-2^-32, true value 1e-12), so that with the
+    length scale 1e-2 the entry exp(+2^-32 / 2e-4) * var exceeded the variance; the difference-first form is positive *)
+Example C20_original_expanded_square_negative :
+  let x := 0x1.f380000000000p+9%float in let y := 0x1.f3800008637bdp+9%float in
+  PrimFloat.ltb (sqdist_expanded FO0 x y) 0%float = true /\
+  PrimFloat.ltb 0%float (powi FO0 (Ops.sub FO0 x y) 2) = true.
+Proof. exact original_expanded_square_negative. Qed.
